@@ -283,9 +283,22 @@ fn crate_pos_class(p: usize, len: usize) -> &'static str {
 }
 
 fn trunc_def(name: &str, select0: bool, mk: impl Fn(BitVector) -> Result<Rc<dyn RankSelectOps>, String> + 'static) -> Def {
-    def(&format!("{name}{{trunc}}"), SpaceKind::Bits, T, move |inp, b| {
-        let rs = mk(bv_from(inp, b)?)?;
-        Ok(vec![custom("core", move |inp| check_core(rs.clone(), inp, select0))])
+    let mk = Rc::new(mk);
+    def(&format!("{name}{{trunc}}"), SpaceKind::Bits, T, move |_inp, b| {
+        let mk = mk.clone();
+        // the structure is built inside the entry point so that a constructor panic is judged as a case outcome
+        Ok(vec![custom("core", move |inp| {
+            let bv = match bv_from(inp, b) {
+                Ok(bv) => bv,
+                Err(_) => return None,
+            };
+            let rs = match catch(|| mk(bv)) {
+                Ok(Ok(rs)) => rs,
+                Ok(Err(_)) => return None,
+                Err(pf) => return Some(fail("construct", "panic", pf.detail)),
+            };
+            check_core(rs, inp, select0)
+        })])
     })
 }
 
@@ -434,16 +447,17 @@ pub fn all_defs(tier: Tier) -> Vec<Def> {
     let mut d = def("RankSelectFactory", SpaceKind::Bits, P, |inp, b| {
         let bits = Rc::new(bv_from(inp, b)?);
         Ok(vec![custom("create_optimal", move |inp| {
-            let rs = match RankSelectFactory::create_optimal((*bits).clone(), BuilderOptions::default()) {
-                Ok(r) => r,
-                Err(_) => return None,
+            let rs = match catch(|| RankSelectFactory::create_optimal((*bits).clone(), BuilderOptions::default())) {
+                Ok(Ok(r)) => r,
+                Ok(Err(_)) => return None,
+                Err(pf) => return Some(fail("construct", "panic", pf.detail)),
             };
             let rc: Rc<dyn RankSelectOps> = Rc::from(rs);
             check_core(rc, inp, true)
         })])
     });
     d.max_len = Some(257);
-    d.applicable = Some(|b| b.len() >= 10 || b.len() <= 2);
+    d.applicable = Some(|b| b.len() <= 3 || b.len() > 16);
     v.push(d);
 
     // ---- BitVector states left behind by resize(): one subject per structure family, all core clauses
